@@ -19,7 +19,7 @@ INPUTS = {
     'quick': [('gen/MC_C02tok', 'gen/MC_C02tok.cfg', 6), ('gen/MC_C03', 'gen/MC_C03atoms_q.cfg', 1), ('gen/MC_C07', 'gen/MC_C07cbor_q.cfg', 4), ('gen/MC_C07', 'gen/MC_C07msgpack_q.cfg', 4),
               ('gen/MC_C07', 'gen/MC_C07ubjson_q4.cfg', 8), ('gen/MC_C07', 'gen/MC_C07bson_tok_q.cfg', 8), ('gen/MC_C07', 'gen/MC_C07cbor_rep.cfg', 1), ('gen/MC_C07', 'gen/MC_C07bson_rep.cfg', 2),
               ('gen/MC_C14', 'gen/MC_C14str_q.cfg', 16), ('gen/MC_C12', 'gen/MC_C12slice_q.cfg', 24), ('gen/MC_C12', 'gen/MC_C12filter_q.cfg', 80), ('gen/MC_C13', 'gen/MC_C13fn_q.cfg', 20),
-              ('gen/MC_C11', 'gen/MC_C11atoms_q.cfg', 12), ('gen/MC_C15', 'gen/MC_C15_q.cfg', 10), ('gen/MC_C05enc', 'gen/MC_C05enc_q.cfg', 1), ('gen/MC_C05cbor', 'gen/MC_C05cbor.cfg', 1), ('gen/MC_C03csv', 'gen/MC_C03csv_q.cfg', 12)],
+              ('gen/MC_C11', 'gen/MC_C11atoms_q.cfg', 12), ('gen/MC_C15', 'gen/MC_C15_q.cfg', 10), ('gen/MC_C05enc', 'gen/MC_C05enc_q.cfg', 1), ('gen/MC_C05cbor', 'gen/MC_C05cbor.cfg', 1), ('gen/MC_C03csv', 'gen/MC_C03csv_q.cfg', 12), ('gen/MC_C13', 'gen/MC_C13slice_q.cfg', 1), ('gen/MC_C13', 'gen/MC_C13cmp.cfg', 8)],
     'thorough': [('gen/MC_C02tok', 'gen/MC_C02tok.cfg', 1), ('gen/MC_C02char', 'gen/MC_C02char_q.cfg', 2), ('gen/MC_C03', 'gen/MC_C03atoms_t.cfg', 1), ('gen/MC_C07', 'gen/MC_C07cbor_q.cfg', 1),
                  ('gen/MC_C07', 'gen/MC_C07cbor_tok_q.cfg', 2), ('gen/MC_C07', 'gen/MC_C07msgpack_q.cfg', 1), ('gen/MC_C07', 'gen/MC_C07msgpack_tok_q.cfg', 2), ('gen/MC_C07', 'gen/MC_C07ubjson_q4.cfg', 1),
                  ('gen/MC_C07', 'gen/MC_C07ubjson_tok_q.cfg', 2), ('gen/MC_C07', 'gen/MC_C07bson_tok_q.cfg', 1), ('gen/MC_C07', 'gen/MC_C07cbor_rep.cfg', 1), ('gen/MC_C07', 'gen/MC_C07msgpack_rep.cfg', 1),
